@@ -75,7 +75,6 @@ def check_coarse_grid(case):
             want = float(np.sum(tg.dt[m]))
             if abs(float(r.dt[k]) - want) > 1e-9 * max(1, abs(want)):
                 out.append(fail('C19.coarse.dt_is_sum_of_minor_steps', 'basic_classes:Timegrid.__init__', case, params, f'coarse step {k}: dt {r.dt[k]} != sum of fine dt {want}'))
-                break
             # elapsed time to the next coarse point
             t0 = tg.timepoints[m[0]]
             t1 = tg.timepoints[m[-1] + 1] if m[-1] + 1 < tg.T else tg.end
@@ -298,7 +297,9 @@ def check_nodal_price(case):
     o = eao.io.extract_output(pf, op, res)
     np_table = o['prices']
     active = [t for (a, b) in case['windows'] for t in range(a, b)]
-    for t in active[:case.get('probe', 3)]:
+    # probe the first active step and the last ones (after any gap in the node's activity)
+    probes = sorted(set(active[:1] + active[-(case.get('probe', 3) - 1):]))
+    for t in probes:
         col = 'nodal price: site'
         pr = np_table[col].iloc[t] if col in np_table else float('nan')
         if not np.isfinite(pr):
